@@ -32,11 +32,25 @@ pub enum Ctor {
     WitnessBig { shape: Vec<u16> },
     OpeningLen { n: usize },
     Mask { deg: usize, len: usize },
+    /// the same with a blinding vector whose allocation is larger than its length by `spare` (built by push / truncate)
+    MaskRoomy { deg: usize, len: usize, spare: usize },
     DegreeU8(u8),
     DegreeUsize(usize),
     Commit { nblind: usize, deg: usize },
     /// generators whose public fields were set by hand: `bases` >= deg masking bases present, declared degree `deg`
     CommitSurplus { nblind: usize, deg: usize, bases: usize },
+}
+
+/// `Vec::clone` allocates exactly `len`; this keeps the spare capacity (which is the point of the case)
+trait CloneRoomy {
+    fn clone_roomy(&self) -> Self;
+}
+impl CloneRoomy for Vec<Scalar> {
+    fn clone_roomy(&self) -> Self {
+        let mut v = Vec::with_capacity(self.capacity());
+        v.extend_from_slice(self);
+        v
+    }
 }
 
 fn grid<E: Engine>(ctx: &RunCtx) -> Vec<Ctor> {
@@ -102,7 +116,19 @@ fn grid<E: Engine>(ctx: &RunCtx) -> Vec<Ctor> {
         for deg in 1..=6 {
             for len in 0..=8 {
                 v.push(Ctor::Mask { deg, len });
+                for spare in [1usize, 2, 5] {
+                    v.push(Ctor::MaskRoomy { deg, len, spare });
+                }
             }
+        }
+        // capacities beyond the batch chunk size (cheap at one or two bits), and statements with that many commitments
+        for bits in [1usize, 2] {
+            for cap in [256usize, 512, 1024, 2048] {
+                v.push(Ctor::Params { bits, cap, ext: 1 + cap % 5 });
+            }
+        }
+        for (ncommit, cap) in [(256usize, 256usize), (512, 512), (512, 1024), (1024, 1024), (1024, 512), (257, 512), (511, 512)] {
+            v.push(Ctor::Statement { ncommit, nprom: ncommit, seed: 0, cap });
         }
         for b in 0..=255u8 {
             v.push(Ctor::DegreeU8(b));
@@ -261,6 +287,32 @@ pub fn oracle<E: Engine>(_ctx: &RunCtx, c: &Ctor, log: &mut CaseLog) -> Result<(
             let r = guarded(|| ExtendedMask::assign(ext_of(*deg), b.clone()))?;
             if r.is_ok() != want {
                 return Err(format!("ExtendedMask::assign(degree {}, {} blindings) is {} but the documented domain says {}", deg, len, okerr(r.is_ok()), okerr(want)));
+            }
+            if let Ok(m) = r {
+                if m.blindings().ok() != Some(b) {
+                    return Err("ExtendedMask::blindings does not return the inputs".into());
+                }
+            }
+        },
+        Ctor::MaskRoomy { deg, len, spare } => {
+            // the length decides, not the allocation
+            let want = len == deg;
+            expect_ok = want;
+            let mut b: Vec<Scalar> = Vec::with_capacity(*len + *spare);
+            for k in 0..*len + *spare {
+                b.push(Scalar::from(k as u64 + 3));
+            }
+            b.truncate(*len);
+            let r = guarded(|| ExtendedMask::assign(ext_of(*deg), b.clone_roomy()))?;
+            if r.is_ok() != want {
+                return Err(format!(
+                    "ExtendedMask::assign(degree {}, {} blindings in a vector of capacity {}) is {} but the documented domain says {}",
+                    deg,
+                    len,
+                    len + spare,
+                    okerr(r.is_ok()),
+                    okerr(want)
+                ));
             }
             if let Ok(m) = r {
                 if m.blindings().ok() != Some(b) {
